@@ -804,6 +804,18 @@ def handle (case impl : List String) : String :=
       ("cliBudgetUsed", match started with | some s => lo ≤ s | none => false),
       ("cliRestStillBuilt", !given || kk ≤ nn || good == some gg),
       ("cliExitReflectsFailure", code == some (if nn == 0 then 0 else 1))]
+  | ["n2bin", "where", c, f, _, targets] =>
+    -- C18 through parse_args: -C selects the directory, -f the manifest in it, `builddir` (set by
+    -- alt.ninja only) the place of the log; the targets named (else `default a`) are built there by
+    -- that manifest's commands, and one unknown name means an error and nothing built
+    let dir := if c == "1" then "d/" else ""
+    let marker := (if c == "1" then "d" else "top") ++ "-" ++ (if f == "1" then "alt" else "build")
+    let ts := if targets == "-" then ["a"] else (targets.splitOn ",").map (fun t => if t == "./b" then "b" else t)
+    let bad := ts.any (fun t => t != "a" && t != "b")
+    let built := if bad then [] else (["a", "b"].filter (fun t => ts.contains t)).map (fun t => dir ++ t)
+    let j := fun (l : List String) => if l.isEmpty then "-" else ",".intercalate l
+    let want := s!"code={if bad then 1 else 0} built={j built} marker={if bad then "-" else marker} db={dir}{if f == "1" then "bd/" else ""}.n2_db"
+    want ++ mons [("cliSelectsOnlyPlace", " ".intercalate impl == want)]
   | ["n2bin", "jobs", j, n, pool] =>
     -- C04 through parse_args: never more than -j commands at once, nor more than the pool's depth
     let fld := fun (name : String) => (impl.findSome? (fun t => if t.startsWith (name ++ "=") then (t.drop (name.length + 1)).toString.toNat? else none))
